@@ -88,6 +88,23 @@ def run_case(R, tmp, case, meas):
         fails.append("%s: dump failed at validation point %d (%s) and left a new %d-byte file behind"
                      % (case["fmt"], case["failAt"], pt, len(now)))
     if case["failAt"] and not fails:
+        # the same failing dump with the destination given as a path-like object: whatever the library makes of such a
+        # destination (supporting it is not the claim), the file at that place is what it was
+        import pathlib
+        before = open(path).read() if os.path.exists(path) else None
+        R.DUMP["inject"] = case["failAt"]
+        try:
+            obj.dump(pathlib.Path(path))
+        except Exception:
+            pass
+        finally:
+            R.DUMP["inject"] = None
+        now2 = open(path).read() if os.path.exists(path) else None
+        if now2 != before:
+            fails.append("%s: dump to a pathlib.Path failed at validation point %d (%s) and %s"
+                         % (case["fmt"], case["failAt"], pt, "left a new file behind" if before is None else
+                            ("deleted the previous file" if now2 is None else "replaced the previous file by %d bytes" % len(now2))))
+    if case["failAt"] and not fails:
         # after the refused dump the same object, now valid again, is written to the same destination
         try:
             obj.dump(path)
@@ -142,8 +159,6 @@ def run(ctx):
         from . import corruptions
         n = 0
         for c in corruptions.write_cases(quick=ctx.quick):
-            if not c.get("nested"):
-                continue
             for disk0 in ("Old", "Absent"):
                 n += 1
                 fails = corruptions.eval_dump_path(c, disk0, tmp)
